@@ -212,3 +212,146 @@ def all_strings(V, n):
         frontier = [x + (a,) for x in frontier for a in V]
         out += frontier
     return out
+
+
+# ---------------------------------------------------------------------------------------------
+# automata / transducers / graphs
+
+STATE_POOLS = {
+    "int": [0, 1, 2, 3, 4],
+    "str": ["p", "q", "r", "s", "t"],
+    "tuple": [["s", 0], ["s", 1], ["s", 2], ["s", 3], ["s", 4]],
+}
+FREE_W = ["1/2", "1/3", "2", "3", "5/7", "1", "1/4", "3/2"]
+
+
+def _arc_weights(draw, regime, fanout, acyclic):
+    "weights of the `fanout` arcs leaving one state"
+    if regime == "BOOL":
+        return ["1"] * fanout
+    if regime == "MT":
+        return [draw(st.sampled_from(["1", "1/2", "1/3", "3/4"])) for _ in range(fanout)]
+    if regime == "MP":
+        return [str(draw(st.sampled_from([0, -1, -2, -3]))) for _ in range(fanout)]
+    if acyclic:
+        return [draw(st.sampled_from(FREE_W)) for _ in range(fanout)]
+    c = draw(st.sampled_from([Fraction(4, 3), Fraction(2)]))
+    return [F(draw(st.sampled_from([Fraction(1), Fraction(3, 4), Fraction(1, 2)])) / (c * fanout)) for _ in range(fanout)]
+
+
+def _end_weight(draw, regime):
+    if regime == "BOOL":
+        return "1"
+    if regime == "MT":
+        return draw(st.sampled_from(["1", "1/2", "2/3"]))
+    if regime == "MP":
+        return str(draw(st.sampled_from([0, -1, -2])))
+    return draw(st.sampled_from(["1", "1/2", "2", "1/3", "3/4"]))
+
+
+@st.composite
+def automaton(draw, regime="QQ", max_states=4, max_arcs=8, alphabet=("a", "b"), eps=True, acyclic=False, pool=None, boost=None, labels=None):
+    n = draw(st.integers(1, max_states))
+    pool = pool or draw(st.sampled_from(["int", "int", "str", "tuple"]))
+    names = STATE_POOLS[pool][:n] if isinstance(pool, str) else list(pool)[:n]
+    n = len(names)
+    syms = list(alphabet) + ([""] if eps else [])
+    k = draw(st.integers(0, max_arcs))
+    raw = []
+    for _ in range(k):
+        q = draw(st.integers(0, n - 1))
+        r = draw(st.integers(0, n - 1))
+        if acyclic:
+            if q == r:
+                continue
+            q, r = min(q, r), max(q, r)
+        a = draw(st.sampled_from(syms)) if labels is None else draw(labels)
+        raw.append((q, a, r))
+    by = {}
+    for q, a, r in raw:
+        by.setdefault(q, []).append((a, r))
+    arcs = []
+    for q in sorted(by):
+        ws = _arc_weights(draw, regime, len(by[q]), acyclic)
+        for (a, r), w in zip(by[q], ws):
+            arcs.append([names[q], a, names[r], w])
+    if boost is None:
+        boost = draw(st.integers(0, 9)) < 8
+    start = [[names[q], _end_weight(draw, regime)] for q in range(n) if draw(st.integers(0, 3)) == 0]
+    stop = [[names[q], _end_weight(draw, regime)] for q in range(n) if draw(st.integers(0, 3)) == 0]
+    if boost and not start:
+        start = [[names[0], _end_weight(draw, regime)]]
+    if boost and not stop:
+        stop = [[names[n - 1], _end_weight(draw, regime)]]
+    return {"states": names, "start": start, "stop": stop, "arcs": arcs, "regime": regime, "acyclic": bool(acyclic)}
+
+
+@st.composite
+def transducer(draw, regime="QQ", max_states=3, max_arcs=6, A=("a", "b"), B=("a", "b"), acyclic=False, boost=None):
+    lab = st.tuples(st.sampled_from(list(A) + [""]), st.sampled_from(list(B) + [""])).map(list)
+    m = draw(automaton(regime=regime, max_states=max_states, max_arcs=max_arcs, acyclic=acyclic, pool="int", boost=boost, labels=lab))
+    m["arcs"] = [[q, ab[0], ab[1], r, w] for q, ab, r, w in m["arcs"]]
+    return m
+
+
+def classify_automaton(m):
+    out = set()
+    arcs = m["arcs"]
+    tr = len(arcs[0]) == 5 if arcs else False
+    if tr:
+        if any(a[1] == "" and a[2] == "" for a in arcs):
+            out.add("eps:eps")
+        if any(a[1] == "" for a in arcs):
+            out.add("eps_input")
+        if any(a[2] == "" for a in arcs):
+            out.add("eps_output")
+        edges = [(a[0], a[3]) for a in arcs]
+        eps_edges = [(a[0], a[3]) for a in arcs if a[1] == "" and a[2] == ""]
+    else:
+        if any(a[1] == "" for a in arcs):
+            out.add("eps_arc")
+        edges = [(a[0], a[2]) for a in arcs]
+        eps_edges = [(a[0], a[2]) for a in arcs if a[1] == ""]
+    key = lambda x: repr(x)  # noqa: E731
+    if cfgref.find_cycle_rule([(key(x), key(y), i) for i, (x, y) in enumerate(edges)]) is not None:
+        out.add("cycle")
+    if cfgref.find_cycle_rule([(key(x), key(y), i) for i, (x, y) in enumerate(eps_edges)]) is not None:
+        out.add("eps_cycle")
+    if len(m["start"]) > 1:
+        out.add("multi_initial")
+    if len(m["stop"]) > 1:
+        out.add("multi_final")
+    if {key(q) for q, _ in m["start"]} & {key(q) for q, _ in m["stop"]}:
+        out.add("initial_is_final")
+    seen = set()
+    for a in arcs:
+        k = repr(a[:-1])
+        if k in seen:
+            out.add("parallel_arcs")
+        seen.add(k)
+    # reachability
+    succ, pred = {}, {}
+    for x, y in edges:
+        succ.setdefault(key(x), set()).add(key(y))
+        pred.setdefault(key(y), set()).add(key(x))
+
+    def closure(roots, nb):
+        seen, stack = set(roots), list(roots)
+        while stack:
+            u = stack.pop()
+            for v in nb.get(u, ()):
+                if v not in seen:
+                    seen.add(v)
+                    stack.append(v)
+        return seen
+
+    acc = closure({key(q) for q, _ in m["start"]}, succ)
+    coacc = closure({key(q) for q, _ in m["stop"]}, pred)
+    allq = {key(q) for q in m["states"]}
+    if allq - acc:
+        out.add("unreachable_state")
+    if (acc - coacc):
+        out.add("dead_state")
+    if not (acc & coacc & {key(q) for q, _ in m["stop"]}) :
+        out.add("empty_language")
+    return out
